@@ -213,6 +213,18 @@ func NoteGlobal(tag uint64) {
 
 var cur *Exec
 
+// epoch counts controlled executions. A synchronisation object of the code under test that
+// outlives an execution (package-level state) may have been left locked or waited on by
+// tasks of an execution that was cut short (a detected deadlock, a pruned or parked end);
+// those tasks no longer exist, so the shims reset such an object the first time a later
+// execution touches it (they compare the epoch they last saw with this one).
+var epoch uint64
+
+// Epoch returns the number of the current (or last) controlled execution.
+//
+//go:norace
+func Epoch() uint64 { return epoch }
+
 // resetHooks run when a controlled execution starts (shims with process-wide state, such
 // as pools, return to their initial state so that executions are independent).
 var resetHooks []func()
@@ -759,6 +771,7 @@ func Run(cfg Config, body func()) *Result {
 		e.hb = true
 		e.objs = make(map[unsafe.Pointer]*objHash)
 	}
+	epoch++
 	cur = e
 	t0 := e.newTask()
 	e.running = t0
